@@ -561,9 +561,18 @@ sign<Number> sign<Number>::operator/(const sign<Number> &o) const {
   } else if (not_equal_zero() || o.not_equal_zero()) {
     return top();
   } else {
-    // Once we exclude top, bottom, zero, and non-zero
-    // signed division is like multiplication
-    return (*this) * o;
+    // Once we exclude top, bottom, zero, and non-zero the sign of
+    // the quotient follows the rule of multiplication, except that
+    // signed division truncates towards zero: the quotient of two
+    // non-zero numbers can be zero (1/2 = 0, -1/2 = 0).
+    sign<Number> res = (*this) * o;
+    if (res.m_sign == sign_interval::LTZ) {
+      return sign<Number>(sign_interval::LEZ);
+    } else if (res.m_sign == sign_interval::GTZ) {
+      return sign<Number>(sign_interval::GEZ);
+    } else {
+      return res;
+    }
   }
 }
 
